@@ -5,6 +5,7 @@ package main
 // padded big integers). Used to compare serialisation layouts with the standards.
 
 import (
+	"fmt"
 	"go/token"
 	"go/types"
 	"sort"
@@ -161,6 +162,14 @@ func (e *bigEnv) bytesOf(v ssa.Value, at ssa.Instruction) *X {
 				xs[i] = e.bytesOf(a, x)
 			} else {
 				xs[i] = e.plain(a, x)
+			}
+		}
+		// a small repository helper whose result is a closed byte-layout form of its parameters (a padding or
+		// concatenation helper): substitute the arguments, so that extracting or inlining such a helper does
+		// not change the canonical form
+		if sc := cc.StaticCallee(); sc != nil && !cc.IsInvoke() && inRepo(sc) && isByteSlice(x.Type()) {
+			if form := helperForm(sc); form != nil && (form.Op == "pad32" || form.Op == "padleft") {
+				return substX(form, xs)
 			}
 		}
 		return Op("call:"+name, xs...)
@@ -397,4 +406,119 @@ func eqTest(ifi *ssa.If) (a, b ssa.Value, passSucc int, ok bool) {
 		ps = 0
 	}
 	return call.Call.Args[0], call.Call.Args[1], ps, true
+}
+
+// helperForm: the canonical byte-layout form of the single result of a small repository function in terms of
+// placeholders $0, $1, ... for its parameters; nil when the function is not that simple (several results, several
+// distinct return forms, anything the canonicaliser does not fully understand)
+var helperFormCache = map[*ssa.Function]*X{}
+var helperFormBusy = map[*ssa.Function]bool{}
+
+func helperForm(f *ssa.Function) *X {
+	if r, ok := helperFormCache[f]; ok {
+		return r
+	}
+	if helperFormBusy[f] || f.Blocks == nil || len(f.Blocks) > 8 || f.Signature.Results().Len() != 1 {
+		return nil
+	}
+	helperFormBusy[f] = true
+	defer delete(helperFormBusy, f)
+	names := map[ssa.Value]string{}
+	for i, p := range f.Params {
+		names[p] = fmt.Sprintf("$%d", i)
+	}
+	be := newBigEnv(f, names)
+	var form *X
+	okAll := true
+	for _, b := range f.Blocks {
+		ret, ok := b.Instrs[len(b.Instrs)-1].(*ssa.Return)
+		if !ok {
+			continue
+		}
+		x := be.bytesOf(ret.Results[0], ret)
+		if form != nil && form.String() != x.String() {
+			okAll = false
+		}
+		form = x
+	}
+	if !okAll || form == nil || strings.Contains(form.String(), "?") || strings.Contains(form.String(), "call:") {
+		form = nil
+	}
+	helperFormCache[f] = form
+	return form
+}
+
+// substX replaces the placeholder leaves $i of a helper form by the argument forms
+func substX(x *X, args []*X) *X {
+	if x.Op == "leaf" {
+		if strings.HasPrefix(x.Leaf, "$") {
+			var i int
+			if _, err := fmt.Sscanf(x.Leaf, "$%d", &i); err == nil && i >= 0 && i < len(args) && fmt.Sprintf("$%d", i) == x.Leaf {
+				return args[i]
+			}
+		}
+		// leaves that embed a placeholder textually (pad32 leaves carry strings)
+		if strings.Contains(x.Leaf, "$") {
+			s := x.Leaf
+			for i := len(args) - 1; i >= 0; i-- {
+				s = strings.ReplaceAll(s, fmt.Sprintf("$%d", i), args[i].String())
+			}
+			return L(s)
+		}
+		return x
+	}
+	if x.Op == "const" {
+		return x
+	}
+	out := &X{Op: x.Op, Leaf: x.Leaf}
+	for _, a := range x.Args {
+		out.Args = append(out.Args, substX(a, args))
+	}
+	return out
+}
+
+// stripCopies: copyN(n, x[lo:hi]) with n equal to the length of that slice is the same byte string as x[lo:hi]
+// (a private copy changes who owns the memory, not the bytes): normal form for comparing layouts
+func stripCopies(x *X) *X {
+	if x == nil || x.Op == "leaf" || x.Op == "const" {
+		return x
+	}
+	out := &X{Op: x.Op, Leaf: x.Leaf}
+	for _, a := range x.Args {
+		out.Args = append(out.Args, stripCopies(a))
+	}
+	if out.Op == "copyN" && len(out.Args) == 2 && out.Args[1].Op == "slice" && len(out.Args[1].Args) == 3 {
+		n, sl := out.Args[0].String(), out.Args[1]
+		base, lo, hi := sl.Args[0].String(), sl.Args[1].String(), sl.Args[2].String()
+		var want []string
+		switch {
+		case lo == "_" && hi != "_":
+			want = []string{hi}
+		case lo != "_" && hi == "_":
+			want = []string{"sub(len(" + base + ")," + lo + ")"}
+			// x[len(x)-K:] has K bytes
+			if pre := "sub(len(" + base + "),"; strings.HasPrefix(lo, pre) && strings.HasSuffix(lo, ")") {
+				want = append(want, strings.TrimSuffix(strings.TrimPrefix(lo, pre), ")"))
+			}
+		case lo != "_" && hi != "_":
+			want = []string{"sub(" + hi + "," + lo + ")"}
+			// constant folding for the common hex case is left to the caller's expected strings
+		}
+		for _, w := range want {
+			if n == w {
+				return sl
+			}
+		}
+		// sub(sub(len(D),0x20),0x40) written as sub(len(D),0x60)
+		if lo != "_" && hi != "_" && strings.HasPrefix(hi, "sub(len(") {
+			var k1, k2 uint64
+			if _, err := fmt.Sscanf(lo, "0x%x", &k1); err == nil {
+				rest := strings.TrimPrefix(hi, "sub(len("+base+"),")
+				if _, err := fmt.Sscanf(rest, "0x%x)", &k2); err == nil && n == fmt.Sprintf("sub(len(%s),0x%x)", base, k1+k2) {
+					return sl
+				}
+			}
+		}
+	}
+	return out
 }
